@@ -206,7 +206,9 @@ class SecondCallModule:
 
     def __getattr__(self, name):
         v = getattr(self._mod, name)
-        if isinstance(v, self._ft) and (self._names is None or name in self._names):
+        # any callable that is not a class: plain functions, but also lru_cache wrappers, partials, builtins
+        if callable(v) and not isinstance(v, type) and not name.startswith('__') \
+                and (self._names is None or name in self._names):
             w = self._cache.get(name)
             if w is None or w.__wrapped_by_second_call__ is not v:
                 w = self._cache[name] = second_call(v)
